@@ -6,14 +6,19 @@
 
 pub mod oracle;
 pub mod vx;
+pub mod pre;
 
 #[cfg(feature = "c05")]
 pub mod c05;
+#[cfg(feature = "c09")]
+pub mod c09;
 
 /// name -> harness function, for the native replay binary
 pub fn tables() -> Vec<&'static [(&'static str, fn())]> {
     let mut v: Vec<&'static [(&'static str, fn())]> = Vec::new();
     #[cfg(feature = "c05")]
     v.push(c05::TABLE);
+    #[cfg(feature = "c09")]
+    v.push(c09::TABLE);
     v
 }
